@@ -100,6 +100,7 @@ func VerifC03Index() {
 			return nil
 		})
 		vndAssert(err == nil, "transaction failed")
+		vndKnown("KF-merge-reorder", w.mergeReorder())
 		w.commitModel()
 		for _, c := range st.drain() {
 			replica.c.Replay(c)
@@ -183,7 +184,7 @@ func VerifC19Trigger() {
 		var used [16]bool
 		vndAssert(len(events) <= 16, "too many trigger calls")
 		cur := w.a // model cells before the transaction
-		reorder := false
+		reorder := w.mergeReorder()
 		// KF-delete-and-write: a transaction that deletes a row and also stores to it has the
 		// deletion applied FIRST whatever the issue order (markers before updates): a merge issued
 		// before the delete starts from zero and the stores land on the dead row
